@@ -93,35 +93,85 @@ def r2_impl_pairs(facts, rep):
     rd = find("::deserialize", "<rational::Rational as")
     for nm, b in (("Derived::serialize", ds), ("Derived::deserialize", dd), ("Rational::serialize", rs), ("Rational::deserialize", rd)):
         rep.ob("C17-R2", "anchor:" + nm, b is not None, "hand-written %s found" % nm)
+    from ..absint import core
+    from ..absint.core import Agg, Const, Ref, some, NONE, ok, err
+    from ..absint.term import EffectDomain, Sym, T
+
+    def derived_value():
+        adt = facts.adt("unit::Derived")
+        names = [f["name"] for f in adt["variants"][0]["fields"]]
+        return Agg("adt", "unit::Derived", 0, "Derived", tuple(Sym("self." + n) for n in names))
+
     if ds is not None:
-        cs = [(t, nm) for blk, t, sp, nm in ds.calls()]
-        okk = len(cs) == 1 and "Serialize" in cs[0][1] and cs[0][1].endswith("for u32>::serialize") and \
-            flow.field_origins(ds, cs[0][0]["args"][0]) == {("id",)}
-        rep.ob("C17-R2", "Derived::serialize", okk, "Derived::serialize calls %s" % [c[1] for c in cs], ds.site())
+        # summary: exactly one thing is handed to the serializer, and it is self.id as a u32
+        def oracle(dom, it, name, args, vals, store):
+            if name.endswith("for u32>::serialize") and "Serialize" in name:
+                return [(T("wire_u32", vals[0]), dom.with_log(store, ("write", "u32", vals[0], vals[1])))]
+            if name.endswith("Serializer::serialize_u32"):
+                return [(T("wire_u32", vals[1]), dom.with_log(store, ("write", "u32", vals[1], vals[0])))]
+            if "Serialize" in name and name.endswith("::serialize") or "Serializer::serialize_" in name:
+                return [(T("wire_other", *vals), dom.with_log(store, ("write", name.rsplit("::", 1)[-1], vals[0] if vals else None)))]
+            return None
+        dom = EffectDomain({}, oracle=oracle)
+        dom.uninterp = lambda n: facts.fn(n) is None
+        it = core.Interp(facts, dom, budget=20000)
+        st, ref = it.fresh_slot({}, derived_value())
+        try:
+            outs = it.run(ds, [ref, Sym("serializer")], st)
+            bad = []
+            for o in outs:
+                w = [e for e in dom.log(o.store) if e[0] == "write"]
+                if o.kind != "ret" or len(w) != 1 or w[0][1] != "u32" or w[0][2] != Sym("self.id") or w[0][3] != Sym("serializer") \
+                        or o.value != T("wire_u32", Sym("self.id")):
+                    bad.append("writes %s and returns %r" % ([e[1:3] for e in w], o.value))
+            okk, detail = (not bad and len(outs) >= 1), ("; ".join(bad[:2]) or "Derived::serialize hands exactly self.id to the serializer as a u32 and returns its result")
+        except core.Undecided as e:
+            okk, detail = False, "undecided: %s" % e
+        rep.ob("C17-R2", "Derived::serialize", okk, detail, ds.site())
     if dd is not None:
-        names = [nm for blk, t, sp, nm in dd.calls()]
-        de = [n for n in names if n.endswith("for u32>::deserialize")]
-        lk = flow.calls_named(dd, lambda n: n == "generated::ids::id_to_derived")
-        okk = len(de) == 1 and len(lk) == 1
-        if okk:
-            # the id looked up is the u32 just read
-            ls = flow.slice_back(dd, lk[0][1]["args"][0])
-            okk = any(l[0] == "call" and l[1].endswith("for u32>::deserialize") for l in ls)
-            # Ok only on Some, Err on None
-            e = flow.ok_edge_generic(dd, lk[0][0], 1)
-            if e:
-                sw, some_t, fails = e
-                oks = [blk["id"] for blk, i, s in dd.stmts() if s["place"]["local"] == 0 and s["rv"]["k"] == "aggregate"
-                       and s["rv"]["kind"].get("variant") == "Ok"]
-                okk = okk and bool(oks) and all(o in dd.cfg.blocks_only_via_edge(sw, some_t) for o in oks)
-                for blk, i, s in dd.stmts():
-                    if s["place"]["local"] == 0 and s["rv"]["k"] == "aggregate" and s["rv"]["kind"].get("variant") == "Ok":
-                        src = flow.slice_back(dd, s["rv"]["ops"][0])
-                        okk = okk and any(l[0] == "call" and l[1] == "generated::ids::id_to_derived" for l in src)
-            else:
-                okk = False
-        rep.ob("C17-R2", "Derived::deserialize", okk,
-               "Derived::deserialize reads a u32, maps it through id_to_derived and returns Ok only with its Some payload", dd.site())
+        def oracle2(dom, it, name, args, vals, store):
+            if name.endswith("for u32>::deserialize") and "Deserialize" in name:
+                return [(ok(Sym("wire")), dom.with_log(store, ("read", "u32", vals[0]))), (err(Sym("wire_error")), dom.with_log(store, ("read-failed",)))]
+            if "Deserialize" in name and name.endswith("::deserialize"):
+                return [(ok(Sym("wire_other")), dom.with_log(store, ("read", name, vals[0] if vals else None)))]
+            if name == "generated::ids::id_to_derived":
+                # the unit found for an identifier carries that identifier (C17-R1: the table is a bijection on the ids)
+                adt = facts.adt("unit::Derived")
+                names_ = [f["name"] for f in adt["variants"][0]["fields"]]
+                unit = Agg("adt", "unit::Derived", 0, "Derived", tuple(vals[0] if n == "id" else T("unit_of." + n, vals[0]) for n in names_))
+                return [(some(unit), dom.with_log(store, ("lookup", vals[0]))), (NONE, dom.with_log(store, ("lookup-none", vals[0])))]
+            return None
+        dom = EffectDomain({}, oracle=oracle2)
+        dom.uninterp = lambda n: facts.fn(n) is None
+        it = core.Interp(facts, dom, budget=40000)
+        try:
+            outs = it.run(dd, [Sym("deserializer")], {})
+            bad = []
+            n_ok = 0
+            for o in outs:
+                if o.kind != "ret":
+                    if o.kind == "panic":
+                        bad.append("can panic: %s" % (o.value,))
+                    continue
+                log = dom.log(o.store)
+                reads = [e for e in log if e[0] == "read"]
+                v = o.value
+                is_ok = isinstance(v, Agg) and v.path == "std::result::Result" and v.vi == 0
+                if is_ok:
+                    n_ok += 1
+                    got = v.field(0)
+                    is_unit = isinstance(got, Agg) and got.path == "unit::Derived" and Sym("wire") in got.fields and all(
+                        f == Sym("wire") or (isinstance(f, T) and f.op.startswith("unit_of.") and f.args == (Sym("wire"),)) for f in got.fields)
+                    if len(reads) != 1 or reads[0][1] != "u32" or reads[0][2] != Sym("deserializer") or not is_unit \
+                            or ("lookup", Sym("wire")) not in log:
+                        bad.append("returns %r after %s" % (v, [e[:2] for e in log]))
+                else:
+                    if any(e[0] == "lookup" for e in log) and not any(e[0] == "lookup-none" for e in log):
+                        bad.append("an identifier that names a unit is rejected")
+            okk, detail = (not bad and n_ok >= 1), ("; ".join(bad[:2]) or "Derived::deserialize reads one u32, maps it through id_to_derived and returns Ok only with its Some payload (Err on None)")
+        except core.Undecided as e:
+            okk, detail = False, "undecided: %s" % e
+        rep.ob("C17-R2", "Derived::deserialize", okk, detail, dd.site())
     for nm, b, meth in (("Rational::serialize", rs, "serialize"), ("Rational::deserialize", rd, "deserialize")):
         if b is None:
             continue
